@@ -63,6 +63,37 @@ fn main() {
             for size in [0u32, 1, 65536, u32::MAX] { check("network TxIdAndSize", &TxIdAndSize(EraTxId(era, vec![0x5a; len]), size), |a, b| a == b, &mut n); }
         } }
     }
+    {   // handshake (node-to-node and node-to-client), tx-submission, tx-monitor and local-tx-submission messages (pallas-network)
+        use pallas_network::miniprotocols::{handshake, txsubmission, txmonitor, localtxsubmission};
+        use handshake::{Message as H, RefuseReason, VersionTable};
+        let dbg = |a: &dyn std::fmt::Debug, b: &dyn std::fmt::Debug| format!("{a:?}") == format!("{b:?}");
+        let n2n = handshake::n2n::VersionTable::v7_and_above(764824073);
+        let n2c = handshake::n2c::VersionTable::v10_and_above(764824073);
+        let mut vd_n2n = Vec::new();
+        for (_, d) in n2n.values.iter() { vd_n2n.push(d.clone()); }
+        check("n2n handshake Propose", &H::Propose(n2n.clone()), |a, b| dbg(a, b) || matches!((a, b), (H::Propose(x), H::Propose(y)) if x.values == y.values), &mut n);
+        check("n2n handshake QueryReply", &H::QueryReply(n2n.clone()), |a, b| dbg(a, b) || matches!((a, b), (H::QueryReply(x), H::QueryReply(y)) if x.values == y.values), &mut n);
+        for (v, d) in n2n.values.iter() { check("n2n handshake Accept", &H::Accept(*v, d.clone()), |a, b| dbg(a, b), &mut n); }
+        check("n2c handshake Propose", &H::Propose(n2c.clone()), |a, b| dbg(a, b) || matches!((a, b), (H::Propose(x), H::Propose(y)) if x.values == y.values), &mut n);
+        for (v, d) in n2c.values.iter() { check("n2c handshake Accept", &H::Accept(*v, d.clone()), |a, b| dbg(a, b), &mut n); }
+        for r in [RefuseReason::VersionMismatch(vec![]), RefuseReason::VersionMismatch(vec![7, 13, 70000]), RefuseReason::HandshakeDecodeError(13, "bad".into()), RefuseReason::Refused(14, String::new())] {
+            check("handshake Refuse", &H::<handshake::n2n::VersionData>::Refuse(r), |a, b| dbg(a, b), &mut n);
+        }
+        let _ = VersionTable::<handshake::n2n::VersionData> { values: Default::default() };
+        type TS = txsubmission::Message<txsubmission::EraTxId, txsubmission::EraTxBody>;
+        let id = |k: u8| txsubmission::EraTxId(6, vec![k; 32]);
+        let msgs: Vec<TS> = vec![TS::Init, TS::Done, TS::RequestTxIds(true, 0, 3), TS::RequestTxIds(false, 65535, 65535),
+            TS::ReplyTxIds(vec![]), TS::ReplyTxIds(vec![txsubmission::TxIdAndSize(id(1), 300), txsubmission::TxIdAndSize(id(2), u32::MAX)]),
+            TS::RequestTxs(vec![]), TS::RequestTxs(vec![id(1), id(2), id(3)]),
+            TS::ReplyTxs(vec![]), TS::ReplyTxs(vec![txsubmission::EraTxBody(6, vec![0x84; 200]), txsubmission::EraTxBody(5, vec![])])];
+        for m in &msgs { check("tx-submission message", m, |a, b| dbg(a, b), &mut n); }
+        let _ = (&txmonitor::Message::Done, &localtxsubmission::Message::<u8, u8>::Done);
+        for m in [txmonitor::Message::Done, txmonitor::Message::Acquire, txmonitor::Message::AwaitAcquire, txmonitor::Message::Release, txmonitor::Message::RequestNextTx,
+                  txmonitor::Message::RequestSizeAndCapacity, txmonitor::Message::Acquired(0), txmonitor::Message::Acquired(u64::MAX), txmonitor::Message::RequestHasTx(hex(&[7u8; 32])),
+                  txmonitor::Message::ResponseHasTx(true), txmonitor::Message::ResponseHasTx(false)] {
+            check("tx-monitor message", &m, |a, b| dbg(a, b), &mut n);
+        }
+    }
     {   // pallas-network2
         use pallas_network2::protocol::{chainsync::Tip, keepalive, Point};
         let mut points = vec![Point::Origin];
